@@ -1,6 +1,38 @@
--- shard 21 of the closeness / tick-gap sweep (C06 (c), (e)): |tick| in [688128, 720896)
+-- shard 21 of the closeness / tick-gap sweep (C06 (c), (e)): |tick| in [688128, 720896), 16 blocks of 2^11
 import Proofs.Lemmas.ClosePred
 namespace Demeter.TickClose
 set_option maxRecDepth 100000 in
-theorem close_shard_21 : chkN closeSweepPred 688128 shardBits = true := by decide +kernel
+theorem close_blk_688128 : chkN closeSweepPred 688128 11 = true := by decide +kernel
+set_option maxRecDepth 100000 in
+theorem close_blk_690176 : chkN closeSweepPred 690176 11 = true := by decide +kernel
+set_option maxRecDepth 100000 in
+theorem close_blk_692224 : chkN closeSweepPred 692224 11 = true := by decide +kernel
+set_option maxRecDepth 100000 in
+theorem close_blk_694272 : chkN closeSweepPred 694272 11 = true := by decide +kernel
+set_option maxRecDepth 100000 in
+theorem close_blk_696320 : chkN closeSweepPred 696320 11 = true := by decide +kernel
+set_option maxRecDepth 100000 in
+theorem close_blk_698368 : chkN closeSweepPred 698368 11 = true := by decide +kernel
+set_option maxRecDepth 100000 in
+theorem close_blk_700416 : chkN closeSweepPred 700416 11 = true := by decide +kernel
+set_option maxRecDepth 100000 in
+theorem close_blk_702464 : chkN closeSweepPred 702464 11 = true := by decide +kernel
+set_option maxRecDepth 100000 in
+theorem close_blk_704512 : chkN closeSweepPred 704512 11 = true := by decide +kernel
+set_option maxRecDepth 100000 in
+theorem close_blk_706560 : chkN closeSweepPred 706560 11 = true := by decide +kernel
+set_option maxRecDepth 100000 in
+theorem close_blk_708608 : chkN closeSweepPred 708608 11 = true := by decide +kernel
+set_option maxRecDepth 100000 in
+theorem close_blk_710656 : chkN closeSweepPred 710656 11 = true := by decide +kernel
+set_option maxRecDepth 100000 in
+theorem close_blk_712704 : chkN closeSweepPred 712704 11 = true := by decide +kernel
+set_option maxRecDepth 100000 in
+theorem close_blk_714752 : chkN closeSweepPred 714752 11 = true := by decide +kernel
+set_option maxRecDepth 100000 in
+theorem close_blk_716800 : chkN closeSweepPred 716800 11 = true := by decide +kernel
+set_option maxRecDepth 100000 in
+theorem close_blk_718848 : chkN closeSweepPred 718848 11 = true := by decide +kernel
+theorem close_shard_21 : chkN closeSweepPred 688128 shardBits = true :=
+  (chkN_join _ 688128 14 (chkN_join _ 688128 13 (chkN_join _ 688128 12 (chkN_join _ 688128 11 close_blk_688128 close_blk_690176) (chkN_join _ 692224 11 close_blk_692224 close_blk_694272)) (chkN_join _ 696320 12 (chkN_join _ 696320 11 close_blk_696320 close_blk_698368) (chkN_join _ 700416 11 close_blk_700416 close_blk_702464))) (chkN_join _ 704512 13 (chkN_join _ 704512 12 (chkN_join _ 704512 11 close_blk_704512 close_blk_706560) (chkN_join _ 708608 11 close_blk_708608 close_blk_710656)) (chkN_join _ 712704 12 (chkN_join _ 712704 11 close_blk_712704 close_blk_714752) (chkN_join _ 716800 11 close_blk_716800 close_blk_718848))))
 end Demeter.TickClose
